@@ -9,7 +9,8 @@ Import ListNotations.
 Inductive walk_err :=
 | WeMissing (i : id)        (* ChunkMissing{id} from RemoveChunk *)
 | WeErrno (e : errno)       (* lstat / readdir / os.Remove failure handed back by the callback *)
-| WeFuel.                   (* model artefact: recursion budget exhausted (never with fuel > tree depth) *)
+| WeFuel                    (* model artefact: recursion budget exhausted (never with fuel > tree depth) *)
+| WeBlocked.                (* waits forever for a pooled connection (only the pre-9329890 SFTP prune) *)
 
 (* filepath.Walk(root, fn) for callbacks that return the error they are given and nil for directories
    (both Prune and Verify do).  X is the callback's state; [fs_of] is the file system the walk itself
@@ -92,8 +93,29 @@ Section Prune.
 
   Definition prune_file := prune_file_gen true.
   Definition prune := prune_gen true.
+  (* SFTPStore.Prune (after 9329890) stats and removes over the connection the walk holds: it is the
+     callback above and never touches the pool again. *)
   Definition sftp_prune_file := prune_file_gen false.
   Definition sftp_prune := prune_gen false.
+
+  (* SFTPStore.Prune as it was before 9329890: the walk holds one of the [pool] connections and the
+     removal goes through s.RemoveChunk, which takes another one: with pool <= 1 it waits forever. *)
+  Definition sftp_prune_file_prefix (pool : nat) (st : store) (keep : id -> bool) (pstr : bytes) (p : path) (s : node)
+    : node * option walk_err :=
+    match chunk_file_id (st_unc st) pstr (last p []) with
+    | None => (s, None)
+    | Some i =>
+        if keep i then (s, None)
+        else if pool <=? 1 then (s, Some WeBlocked)
+        else match remove_chunk st i s with
+             | RmOk s' => (s', None)
+             | RmMissing => (s, Some (WeMissing i))
+             | RmErr e => (s, Some (WeErrno e))
+             end
+    end.
+  Definition sftp_prune_prefix (pool : nat) (fuel : nat) (st : store) (basestr : bytes) (keep : id -> bool) (s : node)
+    : node * option walk_err :=
+    walk_root (fun s => s) (sftp_prune_file_prefix pool st keep) fuel basestr (st_base st) s.
 
   (* ---------- LocalStore.Verify ---------- *)
   (* the walk only collects ids (it feeds them to the workers) *)
